@@ -21,6 +21,7 @@ META = {
     "required_counters": ["pongs_checked", "order_windows_checked"],
     "assumptions": [],
 }
+META["claim"] += " " + 'Also: the same WebSocket object closed (five different ways) and connected again on a new transport still answers every ping.'
 
 MODES = [("recv", False), ("recv_data", False), ("recv_data", True), ("recv_data_frame", False), ("recv_data_frame", True)]
 
